@@ -232,8 +232,15 @@ def check_grid(case, ctx):
 @st.composite
 def profile_cases(draw):
     p1 = [draw(gen.nice_or_free(-1e4, 1e4)), draw(gen.nice_or_free(-1e4, 1e4))]
-    kind = draw(st.sampled_from(["free", "horizontal", "vertical", "same", "far", "tiny"]))
-    if kind == "free":
+    kind = draw(st.sampled_from(["free", "horizontal", "vertical", "same", "far", "tiny", "utm_int"]))
+    int_dtype = None
+    if kind == "utm_int":
+        # whole-number end points (metres of a projected coordinate system) stored with a 16- or 32-bit integer dtype; the differences do not fit their squares into it
+        int_dtype = draw(st.sampled_from(["int32", "int32", "int16", "int64"]))
+        top = 30000 if int_dtype == "int16" else 8000000
+        p1 = [float(draw(st.integers(-top, top))), float(draw(st.integers(-top, top)))]
+        p2 = [float(max(-top, min(top, p1[0] + draw(st.integers(-200000, 200000))))), float(max(-top, min(top, p1[1] + draw(st.integers(-200000, 200000)))))]
+    elif kind == "free":
         p2 = [draw(gen.nice_or_free(-1e4, 1e4)), draw(gen.nice_or_free(-1e4, 1e4))]
     elif kind == "horizontal":
         p2 = [draw(gen.nice_or_free(-1e4, 1e4)), p1[1]]
@@ -246,14 +253,20 @@ def profile_cases(draw):
         p2 = [p1[0] + draw(st.sampled_from([1e-9, -3e-10, 2.5e-11])), p1[1] + draw(st.sampled_from([1e-9, 0.0, -7e-10]))]
     else:
         p2 = [p1[0] + draw(gen.finite(-1e6, 1e6)), p1[1] + draw(gen.finite(-1e6, 1e6))]
-    return dict(p1=p1, p2=p2, size=draw(st.integers(1, 120)), kind=kind, extra_seq=draw(st.sampled_from(build.SEQS)), point_seq=draw(st.sampled_from(build.SEQS)),
+    return dict(p1=p1, p2=p2, size=draw(st.integers(1, 120)), kind=kind, int_dtype=int_dtype, extra_seq=draw(st.sampled_from(build.SEQS)), point_seq=draw(st.sampled_from(build.SEQS)),
                 extra=draw(st.one_of(st.none(), gen.finite(-100, 100), st.just(0.0), st.lists(st.one_of(gen.finite(-100, 100), st.just(0.0)), min_size=1, max_size=2))))
 
 
 def check_profile(case, ctx):
     p1, p2, size = case["p1"], case["p2"], case["size"]
     kw = {} if case["extra"] is None else dict(extra_coords=build.seq(case["extra"], case.get("extra_seq", "list")))
-    coords, dist = vd.profile_coordinates(build.seq(p1, case.get("point_seq", "tuple")), build.seq(p2, case.get("point_seq", "tuple")), size, **kw)
+    if case.get("int_dtype"):
+        a1, a2 = np.array(p1, dtype=case["int_dtype"]), np.array(p2, dtype=case["int_dtype"])
+        if case.get("point_seq") == "tuple":
+            a1, a2 = tuple(a1), tuple(a2)  # tuples of numpy integer scalars
+        coords, dist = vd.profile_coordinates(a1, a2, size, **kw)
+    else:
+        coords, dist = vd.profile_coordinates(build.seq(p1, case.get("point_seq", "tuple")), build.seq(p2, case.get("point_seq", "tuple")), size, **kw)
     n_extra = 0 if case["extra"] is None else (len(case["extra"]) if isinstance(case["extra"], list) else 1)
     ctx.check(len(coords) == 2 + n_extra, "expected %d coordinate arrays, got %d", 2 + n_extra, len(coords))
     e, n, dist = np.asarray(coords[0]), np.asarray(coords[1]), np.asarray(dist)
